@@ -15,6 +15,8 @@ pub enum SpiOp {
     Pixels { count: u32, seed: u32 },
     /// as Pixels, but the iterator is not fused: polled again after its end it yields poison pixels
     PixelsNonFused { count: u32, seed: u32 },
+    /// as Pixels, but the iterator's size_hint is (min(lower, count), None): a small positive lower bound
+    PixelsHinted { count: u32, seed: u32, lower: u8 },
     /// RAMWR then one pixel `count` times
     Repeat { pixel: Vec<u8>, count: u32 },
 }
@@ -40,8 +42,10 @@ fn exec<const N: usize>(case: &SpiCase, info: &mut CaseInfo) -> Result<(), Strin
     let w = World::new(8, 8, 8);
     w.borrow_mut().latch_on = true;
     // poisoned staging buffer
-    let mut buffer = vec![0xA5u8; case.buf as usize];
-    let mut di = SpiInterface::new(SpiDev { w: w.clone() }, pin(&w, Src::Dc), &mut buffer[..]);
+    // one spare byte in front: the staging buffer starts at an odd or an even address
+    let mut backing = vec![0xA5u8; case.buf as usize + 1];
+    let skip = (case.buf as usize / 3 + case.ops.len()) % 2;
+    let mut di = SpiInterface::new(SpiDev { w: w.clone() }, pin(&w, Src::Dc), &mut backing[skip..skip + case.buf as usize]);
     let usable = (case.buf as u64 / N as u64) * N as u64;
     let cap_px = case.buf as u64 / N as u64;
     for (idx, op) in case.ops.iter().enumerate() {
@@ -78,6 +82,41 @@ fn exec<const N: usize>(case: &SpiCase, info: &mut CaseInfo) -> Result<(), Strin
                         a
                     }))
                 })
+            }
+            SpiOp::PixelsHinted { count, seed, lower } => {
+                expected.push((false, 0x2C));
+                for k in 0..*count {
+                    let p = px_bytes(*seed, k, N);
+                    expected.extend(p[..N].iter().map(|b| (true, *b as u16)));
+                }
+                let b = *count as u64 * N as u64;
+                allowed = 2 + b / usable + 1;
+                w.borrow_mut().op_budget = ops0 + 2 + allowed + 8;
+                struct Hinted<const M: usize> {
+                    k: u32,
+                    count: u32,
+                    seed: u32,
+                    lower: u32,
+                }
+                impl<const M: usize> Iterator for Hinted<M> {
+                    type Item = [u8; M];
+                    fn next(&mut self) -> Option<[u8; M]> {
+                        if self.k >= self.count {
+                            return None;
+                        }
+                        let p = px_bytes(self.seed, self.k, M);
+                        let mut a = [0u8; M];
+                        a.copy_from_slice(&p[..M]);
+                        self.k += 1;
+                        Some(a)
+                    }
+                    fn size_hint(&self) -> (usize, Option<usize>) {
+                        (((self.count - self.k).min(self.lower)) as usize, None)
+                    }
+                }
+                info.label("under-reporting-size_hint");
+                let it = Hinted::<N> { k: 0, count: *count, seed: *seed, lower: *lower as u32 };
+                di.send_command(0x2C, &[]).and_then(|_| di.send_pixels(it))
             }
             SpiOp::PixelsNonFused { count, seed } => {
                 expected.push((false, 0x2C));
@@ -127,6 +166,7 @@ fn exec<const N: usize>(case: &SpiCase, info: &mut CaseInfo) -> Result<(), Strin
             SpiOp::Cmd { .. } => "send_command".to_string(),
             SpiOp::Pixels { count, .. } => format!("send_pixels({} pixels)", count),
             SpiOp::PixelsNonFused { count, .. } => format!("send_pixels({} pixels, non-fused iterator)", count),
+            SpiOp::PixelsHinted { count, lower, .. } => format!("send_pixels({} pixels, size_hint lower bound {})", count, lower),
             SpiOp::Repeat { count, .. } => format!("send_repeated_pixel(count={})", count),
         };
         if wb.budget_hit {
@@ -165,7 +205,7 @@ fn exec<const N: usize>(case: &SpiCase, info: &mut CaseInfo) -> Result<(), Strin
         }
         // classification
         match op {
-            SpiOp::Pixels { count, .. } | SpiOp::PixelsNonFused { count, .. } | SpiOp::Repeat { count, .. } => {
+            SpiOp::Pixels { count, .. } | SpiOp::PixelsNonFused { count, .. } | SpiOp::PixelsHinted { count, .. } | SpiOp::Repeat { count, .. } => {
                 let c = *count as u64;
                 if c == 0 {
                     info.label("count==0");
@@ -240,7 +280,11 @@ pub fn strategy(exclude_zero_repeat: bool) -> BoxedStrategy<SpiCase> {
         .prop_flat_map(move |(n, buf)| {
             let cap = buf as u32 / n as u32;
             let cmd = (any::<u8>(), proptest::collection::vec(any::<u8>(), 0..=20)).prop_map(|(cmd, args)| SpiOp::Cmd { cmd, args });
-            let px = (count_strategy(cap), any::<u32>(), 0u8..5).prop_map(|(count, seed, nf)| if nf == 0 { SpiOp::PixelsNonFused { count, seed } } else { SpiOp::Pixels { count, seed } });
+            let px = (count_strategy(cap), any::<u32>(), 0u8..5).prop_map(|(count, seed, nf)| match nf {
+                0 => SpiOp::PixelsNonFused { count, seed },
+                1 => SpiOp::PixelsHinted { count, seed, lower: 1 + (seed % 7) as u8 },
+                _ => SpiOp::Pixels { count, seed },
+            });
             // pixels from a tiny per-sequence palette: the same pattern is repeated by several ops
             let pal = prop_oneof![
                 2 => proptest::collection::vec(any::<u8>(), n as usize),
@@ -255,6 +299,103 @@ pub fn strategy(exclude_zero_repeat: bool) -> BoxedStrategy<SpiCase> {
         })
         .prop_map(|(n, buf, ops)| SpiCase { n, buf, ops })
         .boxed()
+}
+
+// ---- repeat counts near u32::MAX through a lean SPI device that checks the pattern as it arrives
+// (gigabytes of traffic: nothing is stored)
+
+pub struct LeanSpi {
+    pub pixel: Vec<u8>,
+    /// position inside the pixel pattern of the next expected byte
+    pub phase: usize,
+    pub bytes: u64,
+    pub transactions: u64,
+    pub bad: Option<String>,
+    pub max_transactions: u64,
+}
+pub struct LeanSpiDev(pub std::rc::Rc<std::cell::RefCell<LeanSpi>>);
+impl embedded_hal::spi::ErrorType for LeanSpiDev {
+    type Error = Fault;
+}
+impl embedded_hal::spi::SpiDevice<u8> for LeanSpiDev {
+    fn transaction(&mut self, operations: &mut [embedded_hal::spi::Operation<'_, u8>]) -> Result<(), Fault> {
+        let mut s = self.0.borrow_mut();
+        s.transactions += 1;
+        if s.transactions > s.max_transactions {
+            return Err(Fault { src: Src::Spi, budget: true });
+        }
+        for o in operations.iter() {
+            if let embedded_hal::spi::Operation::Write(b) = o {
+                let n = s.pixel.len();
+                if s.bad.is_none() && !b.is_empty() {
+                    // whole buffers repeat the pattern: check the first and last pattern period and the length
+                    let ph = s.phase;
+                    for (i, x) in b.iter().take(2 * n).enumerate() {
+                        if *x != s.pixel[(ph + i) % n] {
+                            s.bad = Some(format!("byte {} of the stream is {:#04x}, expected {:#04x}", s.bytes + i as u64, x, s.pixel[(ph + i) % n]));
+                            break;
+                        }
+                    }
+                    let l = b.len();
+                    for i in l.saturating_sub(2 * n)..l {
+                        if b[i] != s.pixel[(ph + i) % n] && s.bad.is_none() {
+                            s.bad = Some(format!("byte {} of the stream is {:#04x}, expected {:#04x}", s.bytes + i as u64, b[i], s.pixel[(ph + i) % n]));
+                        }
+                    }
+                }
+                s.phase = (s.phase + b.len()) % n;
+                s.bytes += b.len() as u64;
+            }
+        }
+        Ok(())
+    }
+}
+
+#[derive(Clone, Debug, PartialEq, Eq, Hash, Serialize, Deserialize)]
+pub struct HugeRepeat {
+    pub n: u8,
+    pub buf: u32,
+    pub count: u32,
+}
+
+pub fn check_huge(c: &HugeRepeat, info: &mut CaseInfo) -> Result<(), String> {
+    crate::dut::install_panic_hook();
+    let pixel: Vec<u8> = (0..c.n).map(|i| 0x5Au8.wrapping_add(i * 0x31)).collect();
+    let cap = (c.buf / c.n as u32) as u64;
+    let total = c.count as u64 * c.n as u64;
+    let allowed = total / (cap * c.n as u64) + 1;
+    let st = std::rc::Rc::new(std::cell::RefCell::new(LeanSpi { pixel: pixel.clone(), phase: 0, bytes: 0, transactions: 0, bad: None, max_transactions: allowed + 16 }));
+    let st2 = st.clone();
+    let c2 = c.clone();
+    let r = std::panic::catch_unwind(std::panic::AssertUnwindSafe(move || {
+        let w = World::new(8, 8, 8);
+        let mut buffer = vec![0xA5u8; c2.buf as usize];
+        let mut di = SpiInterface::new(LeanSpiDev(st2), pin(&w, Src::Dc), &mut buffer[..]);
+        match c2.n {
+            2 => di.send_repeated_pixel([pixel[0], pixel[1]], c2.count),
+            _ => di.send_repeated_pixel([pixel[0], pixel[1], pixel[2]], c2.count),
+        }
+        .map_err(|e| format!("{:?}", e))
+    }));
+    let s = st.borrow();
+    info.nontrivial = total > u32::MAX as u64;
+    match r {
+        Err(_) => Err(format!("send_repeated_pixel(count={}) with a {}-byte buffer panicked after {} of {} bytes", c.count, c.buf, s.bytes, total)),
+        Ok(Err(e)) if s.transactions > s.max_transactions => Err(format!("send_repeated_pixel(count={}) with a {}-byte buffer: unbounded bus traffic (more than {} transactions; {})", c.count, c.buf, s.max_transactions, e)),
+        Ok(Err(e)) => Err(format!("send_repeated_pixel(count={}) returned {}", c.count, e)),
+        Ok(Ok(())) => {
+            if let Some(b) = &s.bad {
+                return Err(format!("send_repeated_pixel(count={}) with a {}-byte buffer: {}", c.count, c.buf, b));
+            }
+            if s.bytes != total {
+                return Err(format!("send_repeated_pixel(count={}) with a {}-byte buffer sent {} bytes, expected {}", c.count, c.buf, s.bytes, total));
+            }
+            if s.transactions > allowed {
+                return Err(format!("send_repeated_pixel(count={}) with a {}-byte buffer used {} transactions, bound {}", c.count, c.buf, s.transactions, allowed));
+            }
+            Ok(())
+        }
+    }
 }
 
 fn sig(c: &SpiCase, reason: &str) -> String {
@@ -286,9 +427,28 @@ pub fn run(ctx: &Ctx) -> Report {
     );
     run_generated(&mut sec, ctx.seed, ctx.cases(500_000, 12_000_000), ctx.workers, || strategy(false), check, sig);
     rep.sections.push(sec);
+
+    let mut sec = Section::new(
+        &format!("huge-repeat[{}]", ctx.variant),
+        "send_repeated_pixel with counts at and near u32::MAX through staging buffers of 256 KiB .. 1 MiB (what a full-screen clear of a 65535x65535 external model does): a lean SPI device checks the byte pattern as it arrives and counts bytes and transactions; non-trivial = more than 2^32 bytes",
+    );
+    let mut cases = vec![HugeRepeat { n: 2, buf: 1 << 20, count: u32::MAX }, HugeRepeat { n: 2, buf: 262_144, count: 4_294_836_225 }];
+    if ctx.tier == super::Tier::Thorough {
+        cases.extend([
+            HugeRepeat { n: 3, buf: 524_288, count: u32::MAX - 5 },
+            HugeRepeat { n: 2, buf: 524_288, count: 4_294_836_225 },
+            HugeRepeat { n: 3, buf: (1 << 20) + 1, count: 4_294_836_225 },
+            HugeRepeat { n: 2, buf: 65_537, count: u32::MAX - 65_536 },
+        ]);
+    }
+    run_enumerated(&mut sec, cases, ctx.workers, check_huge, |_, _| "c06:huge-repeat".into());
+    rep.sections.push(sec);
     rep
 }
 
-pub fn replay(_section: &str, case: &Value) -> Result<(), String> {
+pub fn replay(section: &str, case: &Value) -> Result<(), String> {
+    if section.starts_with("huge-repeat") {
+        return check_huge(&de::<HugeRepeat>(case)?, &mut CaseInfo::default());
+    }
     check(&de::<SpiCase>(case)?, &mut CaseInfo::default())
 }
